@@ -113,6 +113,47 @@ func (w *World) queryProof(q *tibctesting.TestChain, key []byte, height int64) [
 	return proof
 }
 
+// storeValue reads the raw value of a tibc-store key on chain q as of proof height h.
+func (w *World) storeValue(q *tibctesting.TestChain, key []byte, h uint64) []byte {
+	if q == nil || h < 2 || int64(h) > q.App.LastBlockHeight()+1 {
+		return nil
+	}
+	res, err := q.App.Query(context.Background(), &abci.RequestQuery{
+		Path: fmt.Sprintf("store/%s/key", host.StoreKey), Height: int64(h) - 1, Data: key})
+	if err != nil {
+		return nil
+	}
+	return res.Value
+}
+
+func pkeyStr(p packettypes.Packet) string {
+	return fmt.Sprintf("%s/%s/%d", undash(p.SourceChain), undash(p.DestinationChain), p.Sequence)
+}
+
+// cleanMonotone checks that the clean points of chain c never decrease (C10).
+func (w *World) cleanMonotone(c *tibctesting.TestChain) {
+	ctx := c.GetContext()
+	store := ctx.KVStore(c.App.GetKey(host.StoreKey))
+	it := storetypesIterator(store, []byte(host.KeyCleanPacketCommitmentPrefix+"/"))
+	defer it.Close()
+	seen := map[string]uint64{}
+	for ; it.Valid(); it.Next() {
+		seen[c.ChainName+"|"+string(it.Key())] = sdk.BigEndianToUint64(it.Value())
+	}
+	for k, old := range w.cleanPt {
+		if strings.HasPrefix(k, c.ChainName+"|") && seen[k] < old {
+			w.hit("C10", fmt.Sprintf("clean-point-decreased %s %d->%d", k, old, seen[k]))
+		}
+	}
+	for k, v := range seen {
+		w.cleanPt[k] = v
+	}
+}
+
+func (w *World) cleanPoint(c *tibctesting.TestChain, src, dst string) uint64 {
+	return sdk.BigEndianToUint64(c.App.TIBCKeeper.PacketKeeper.GetCleanPacketCommitment(c.GetContext(), src, dst))
+}
+
 // Tx delivers one message on chain c signed by account j of that chain; returns the result.
 func (w *World) Tx(c *tibctesting.TestChain, j int, msg sdk.Msg) *abci.ExecTxResult {
 	acc := c.SenderAccounts[j]
@@ -147,6 +188,8 @@ func pktFields(p packettypes.Packet, dataTok string) string {
 
 // KSend calls PacketKeeper.SendPacket directly (as an application module would), then commits.
 func (w *World) KSend(c *tibctesting.TestChain, p packettypes.Packet, dataTok string) error {
+	before := w.Dump(c)
+	nextBefore := c.App.TIBCKeeper.PacketKeeper.GetNextSequenceSend(c.GetContext(), p.SourceChain, p.DestinationChain)
 	ctx := c.GetContext()
 	err := c.App.TIBCKeeper.PacketKeeper.SendPacket(ctx, p)
 	w.Coord.CommitBlock(c)
@@ -158,7 +201,28 @@ func (w *World) KSend(c *tibctesting.TestChain, p packettypes.Packet, dataTok st
 	} else {
 		evs = w.EventsStr(ctx.EventManager().ABCIEvents())
 	}
-	w.emit("ksend "+c.ChainName+" "+pktFields(p, dataTok), fmt.Sprintf("res=%s | %s | %s", res, evs, w.Dump(c)))
+	after := w.Dump(c)
+	// oracle C09: gap-free sequence, one binding commitment, all-or-nothing
+	pk := c.App.TIBCKeeper.PacketKeeper
+	if err == nil {
+		nctx := c.GetContext()
+		if p.Sequence != nextBefore {
+			w.hit("C09", fmt.Sprintf("send-accepted-with-sequence-%d-but-next-was-%d", p.Sequence, nextBefore))
+		}
+		if pk.GetNextSequenceSend(nctx, p.SourceChain, p.DestinationChain) != nextBefore+1 {
+			w.hit("C09", "next-sequence-not-incremented-by-one-after-send")
+		}
+		want := packettypes.CommitPacket(p)
+		if got := pk.GetPacketCommitment(nctx, p.SourceChain, p.DestinationChain, p.Sequence); string(got) != string(want) {
+			w.hit("C09", "commitment-after-send-is-not-sha256-of-data")
+		}
+		if !strings.Contains(evs, "ev:send_packet:"+pkeyStr(p)+":") {
+			w.hit("C09", "send-not-announced-by-send_packet-event")
+		}
+	} else if before != after {
+		w.hit("C09", "failed-send-changed-state")
+	}
+	w.emit("ksend "+c.ChainName+" "+pktFields(p, dataTok), fmt.Sprintf("res=%s | %s | %s", res, evs, after))
 	return err
 }
 
@@ -204,7 +268,10 @@ func (w *World) revision(chainName string) uint64 {
 func (w *World) Recv(c *tibctesting.TestChain, signer int, p packettypes.Packet, dataTok string, ps ProofSpec, h uint64) *abci.ExecTxResult {
 	proof := w.proofBytes(&ps)
 	msg := packettypes.NewMsgRecvPacket(p, proof, clienttypes.NewHeight(0, h), c.SenderAccounts[signer].SenderAccount.GetAddress())
+	before := w.FullDump(c)
+	cleanBefore := w.cleanPoint(c, p.SourceChain, p.DestinationChain)
 	res := w.Tx(c, signer, msg)
+	w.recvOracle(c, p, h, res, before, cleanBefore)
 	errText := "-"
 	if res.Code == 0 {
 		for _, e := range res.Events {
@@ -226,7 +293,11 @@ func (w *World) Recv(c *tibctesting.TestChain, signer int, p packettypes.Packet,
 func (w *World) Ack(c *tibctesting.TestChain, signer int, p packettypes.Packet, dataTok string, ack []byte, ps ProofSpec, h uint64) *abci.ExecTxResult {
 	proof := w.proofBytes(&ps)
 	msg := packettypes.NewMsgAcknowledgement(p, ack, proof, clienttypes.NewHeight(0, h), c.SenderAccounts[signer].SenderAccount.GetAddress())
+	before := w.FullDump(c)
+	cleanBefore := w.cleanPoint(c, p.SourceChain, p.DestinationChain)
+	commitBefore := c.App.TIBCKeeper.PacketKeeper.GetPacketCommitment(c.GetContext(), p.SourceChain, p.DestinationChain, p.Sequence)
 	res := w.Tx(c, signer, msg)
+	w.ackOracle(c, p, ack, h, res, before, cleanBefore, commitBefore)
 	w.emit(fmt.Sprintf("tx %s ack %s %s %s %d", c.ChainName, pktFields(p, dataTok), w.AckTok(ack), ps.token(), h), w.outcome(c, res))
 	return res
 }
@@ -234,7 +305,9 @@ func (w *World) Ack(c *tibctesting.TestChain, signer int, p packettypes.Packet, 
 // Clean submits MsgCleanPacket on c.
 func (w *World) Clean(c *tibctesting.TestChain, signer int, cp packettypes.CleanPacket) *abci.ExecTxResult {
 	msg := packettypes.NewMsgCleanPacket(cp, c.SenderAccounts[signer].SenderAccount.GetAddress())
+	before := w.FullDump(c)
 	res := w.Tx(c, signer, msg)
+	w.cleanOracle(c, packettypes.NewCleanPacket(cp.Sequence, c.ChainName, cp.DestinationChain, cp.RelayChain), true, 0, res, before)
 	w.emit(fmt.Sprintf("tx %s clean %d %s %s %s", c.ChainName, cp.Sequence, undash(cp.SourceChain), undash(cp.DestinationChain), undash(cp.RelayChain)), w.outcome(c, res))
 	return res
 }
@@ -243,7 +316,9 @@ func (w *World) Clean(c *tibctesting.TestChain, signer int, cp packettypes.Clean
 func (w *World) RecvClean(c *tibctesting.TestChain, signer int, cp packettypes.CleanPacket, ps ProofSpec, h uint64) *abci.ExecTxResult {
 	proof := w.proofBytes(&ps)
 	msg := packettypes.NewMsgRecvCleanPacket(cp, proof, clienttypes.NewHeight(0, h), c.SenderAccounts[signer].SenderAccount.GetAddress())
+	before := w.FullDump(c)
 	res := w.Tx(c, signer, msg)
+	w.cleanOracle(c, cp, false, h, res, before)
 	w.emit(fmt.Sprintf("tx %s recvclean %d %s %s %s %s %d", c.ChainName, cp.Sequence, undash(cp.SourceChain), undash(cp.DestinationChain), undash(cp.RelayChain), ps.token(), h), w.outcome(c, res))
 	return res
 }
